@@ -110,7 +110,7 @@ Proof. unfold KItem. intros H Ht. rewrite Ht in H. exact H. Qed.
 
 Lemma get_stop_K ct id0 s : KInv s -> KInv (r_get_stop ct id0 s).
 Proof.
-  intros HK. unfold r_get_stop. destruct (get_item id0 (rs_items s)) as [it0|] eqn:Hg; [|exact HK].
+  intros HK. unfold r_get_stop. destruct (get_item id0 (rs_items s)) as [it0|] eqn:Hg; [|destruct ct; exact HK].
   destruct (timer_stop (ri_timer it0)) as [t' stopped] eqn:Hts. cbn zeta.
   assert (Hcore : forall held', (forall x, In x (rs_held s) -> In x held') ->
             (stopped && negb (ct && ri_tomb it0) = true -> In id0 held') ->
@@ -137,14 +137,22 @@ Proof.
       + cbn [andb] in Hf. destruct ct, (ri_tomb it0); cbn in Hf; try discriminate. left; reflexivity.
       + right. split; [reflexivity|lia]. }
   destruct (stopped && negb (ct && ri_tomb it0)) eqn:Hgo.
-  - intros id it Hget. unfold KItem. cbn [rout with_items rs_items rs_gc rs_held rs_firing] in *.
-    apply (Hcore (id0 :: rs_held s)); try assumption.
-    + intros x Hx. right. exact Hx.
-    + intros _. left. reflexivity.
-  - intros id it Hget. unfold KItem. cbn [rout with_items rs_items rs_gc rs_held rs_firing] in *.
-    apply (Hcore (rs_held s)); try assumption.
-    + auto.
-    + intros H. discriminate.
+  - intros id it Hget. unfold KItem.
+    assert (Hget' : get_item id (set_item id0 {| ri_tomb := ri_tomb it0; ri_timer := t' |} (rs_items s)) = Some it)
+      by (destruct ct; exact Hget).
+    assert (Hgoal : if ri_tomb it then In id (rs_gc s) else (ri_timer it = 0 \/ In id (id0 :: rs_held s) \/ In id (rs_firing s))).
+    { apply (Hcore (id0 :: rs_held s)); try assumption.
+      + intros x Hx. right. exact Hx.
+      + intros _. left. reflexivity. }
+    destruct ct; exact Hgoal.
+  - intros id it Hget. unfold KItem.
+    assert (Hget' : get_item id (set_item id0 {| ri_tomb := ri_tomb it0; ri_timer := t' |} (rs_items s)) = Some it)
+      by (destruct ct; exact Hget).
+    assert (Hgoal : if ri_tomb it then In id (rs_gc s) else (ri_timer it = 0 \/ In id (rs_held s) \/ In id (rs_firing s))).
+    { apply (Hcore (rs_held s)); try assumption.
+      + auto.
+      + intros H. discriminate. }
+    destruct ct; exact Hgoal.
 Qed.
 
 Lemma KInv_step s l s' : KInv s -> rstep s l = Some s' -> KInv s'.
@@ -296,12 +304,12 @@ Proof. destruct r as [ok s]. cbn [snd finish_with]. intros H. destruct ok; exact
 
 Lemma get_stop_T ct id s : TInv s -> TInv (r_get_stop ct id s).
 Proof.
-  intros [Hnd Hc]. unfold r_get_stop. destruct (get_item id (rs_items s)) as [it|] eqn:Hg; [|split; assumption].
+  intros [Hnd Hc]. unfold r_get_stop. destruct (get_item id (rs_items s)) as [it|] eqn:Hg; [|destruct ct; split; assumption].
   destruct (timer_stop (ri_timer it)) as [t' st]. cbn zeta.
   assert (H : NoDup (map fst (set_item id {| ri_tomb := ri_tomb it; ri_timer := t' |} (rs_items s))) /\
               rs_tombs s = ntombs (set_item id {| ri_tomb := ri_tomb it; ri_timer := t' |} (rs_items s))).
   { rewrite set_item_fst. split; [exact Hnd|]. rewrite (set_item_ntombs _ _ _ _ Hg). cbn [ri_tomb]. lia. }
-  destruct (st && negb (ct && ri_tomb it)); exact H.
+  destruct (st && negb (ct && ri_tomb it)); destruct ct; exact H.
 Qed.
 
 Lemma TInv_step s l s' : TInv s -> rstep s l = Some s' -> TInv s'.
